@@ -14,6 +14,7 @@ RULE = ("the four documented laws as generator templates (MultiCrossBlock = Merg
 ASSUMPTIONS = ["fake peers return only genuine models of the clauses they receive"]
 BUDGET = {"quick": 300, "thorough": 900}
 RUNS = {"quick": 1500, "thorough": 75000}
+THOROUGH_RUNS = 3600        # the thorough tier of this (expensive) check: a fixed range sized to stay within ~15 minutes
 LAWS = ["multicross=merge", "repeat=merge", "repeat-empty=block", "merge-single=block", "cross=multicross-weight"]
 
 
